@@ -512,7 +512,8 @@ def expected_records(program):
     main = program.get('encoding', 'utf-8')
     w = Walker(main)
     recs = [{'section': 'diffx', 'level': 0, 'kind': 'container',
-             'options': {'encoding': main, 'version': '1.0'},
+             'options': ({'encoding': main, 'version': '1.0'}
+                         if main is not None else {'version': '1.0'}),
              'content': None}]
 
     for op, kwargs in program['calls']:
